@@ -452,6 +452,45 @@ var jsonHostileKeys = []string{`"0"`, `"1"`, `"63"`, `"64"`, `"65"`, `"255"`, `"
 
 var jsonDepths = []int{2, 64, 1000, 9998, 9999, 10000, 10001, 20000, 100000}
 
+// objectSpans finds the JSON objects of s that start with marker.
+func objectSpans(s []byte, marker string) []span {
+	var out []span
+	for from := 0; ; {
+		i := strings.Index(string(s[from:]), marker)
+		if i < 0 {
+			return out
+		}
+		lo := from + i
+		depth, inStr, hi := 0, false, -1
+		for j := lo; j < len(s) && hi < 0; j++ {
+			switch c := s[j]; {
+			case inStr:
+				if c == '\\' {
+					j++
+				} else if c == '"' {
+					inStr = false
+				}
+			case c == '"':
+				inStr = true
+			case c == '{' || c == '[':
+				depth++
+			case c == '}' || c == ']':
+				if depth--; depth == 0 {
+					hi = j + 1
+				}
+			}
+		}
+		if hi < 0 {
+			return out
+		}
+		out = append(out, span{lo, hi})
+		from = lo + 1
+		if len(out) >= 64 {
+			return out
+		}
+	}
+}
+
 func deepJSON(d int, open, close string, core string) []byte {
 	return []byte(strings.Repeat(open, d) + core + strings.Repeat(close, d))
 }
@@ -535,6 +574,10 @@ func (m *mut) jsonOne(s []byte) (out []byte, shaped bool) {
 			d = min(d, 3400)
 		}
 		m.note("jnest*%d%s", d, open[:1])
+		if objs := objectSpans(s, `{"type":`); len(objs) > 0 && m.intn(2, "atpolicy") == 0 {
+			// in place of a whole {"type":...} object (a policy or a resolution), wherever it sits
+			return splice(s, objs[m.intn(len(objs), "obj")], deepJSON(d, open, close, core)), true
+		}
 		if t, ok := pick("snl"); ok && m.intn(3, "where") != 0 {
 			return splice(s, t.span, deepJSON(d, open, close, core)), true
 		}
